@@ -232,6 +232,12 @@ func (c18) Exec(sc *sim.Scenario, env *sim.Env) *sim.Violation {
 		sim.Deactivate()
 		solo[i] = taskResult{e.Digest(), append([]uint64{}, e.OpObs...), v}
 		st.SimOps += uint64(len(sc.Tasks[i].Ops))
+		if v == "fragment_changed_by_append" {
+			// the CLONEX role's own oracle belongs to this property: two separately created
+			// emitters that are handed the same fragment must end up alike
+			return &sim.Violation{Oracle: "interference_through_shared_fragment", Step: -1,
+				Msg: fmt.Sprintf("party %d (%s): the same fragment (a Clone) appended to two separately created, identical parents gave two different programs: appending it to the first changed what the second got", i, sc.Tasks[i].Role)}
+		}
 		// package-level state may be initialised by the first party of a role (warm-up); a
 		// later party of the same role changing it again is mutable shared state, visible
 		// even without any interleaving
@@ -473,13 +479,26 @@ func (cloneXRole) Exec(sc *sim.Scenario, env *sim.Env) *sim.Violation {
 	private := buildCloneParent(&sim.Task{Cfg: sc.Cfg, Ops: head}).(*asm.Emitter)
 	pa, _ := sim.RecoverLib(func() { private.Append(clone) })
 	env.ObsBool(pa)
-	var err error
+	// the same fragment goes into a second, separately created twin of the parent as well (a
+	// routine that is patched into two images): both must end up alike
+	second := buildCloneParent(&sim.Task{Cfg: sc.Cfg, Ops: head}).(*asm.Emitter)
+	pa2, _ := sim.RecoverLib(func() { second.Append(clone) })
+	var err, err2 error
 	pf, _ := sim.RecoverLib(func() { err = private.Finalize() })
+	pf2, _ := sim.RecoverLib(func() { err2 = second.Finalize() })
 	env.ObsBool(pf)
 	env.ObsBool(err == nil)
 	if err == nil && !pf {
 		obsSnap(env, snapEmitter(private)) // after a failed Finalize the image depends on map order
 	}
 	env.OpDone()
+	if pa != pa2 || pf != pf2 || (err == nil) != (err2 == nil) {
+		return &sim.Violation{Oracle: "fragment_changed_by_append", Step: -1, Msg: fmt.Sprintf("first parent: Append panicked=%v Finalize panicked=%v err=%v; second parent: %v %v %v", pa, pf, err, pa2, pf2, err2)}
+	}
+	if err == nil && !pf && !pa {
+		if d := snapEmitter(private).diff(snapEmitter(second), true); d != "" {
+			return &sim.Violation{Oracle: "fragment_changed_by_append", Step: -1, Msg: "the two parents differ: " + d}
+		}
+	}
 	return nil
 }
